@@ -3,12 +3,12 @@ import json, collections, time
 from . import buildm as B
 
 CLAIM = dict(
-    text="Coq theorems about an executable step-machine model of the lazy build (Model/BuildM.v: first_entry, Ovld.compile, _update/_register/unregister, register_signature, MultiTypeMap.register/resolve/__missing__ as sequences of atomic steps; a failure after any prefix of steps keeps the writes made so far; resolution order abstracted as a parameter). The full statement (every failure point, every later probe: configuration error or complete-table outcome; works once the offending method is removed) is REFUTED by vm_compute witnesses: KF-19 (failure in the fill loop after the entry-point swap, and the table replaced by an empty one at the start of every rebuild; removing the offending method does not repair a failed first build), KF-20 (interrupt between the first-rank write and the continuation writes of resolve), KF-45 (interrupt between recording a method and rebuilding). PROVED for all definition lists, histories of completed calls, failure points and probe sequences: a failure at any step boundary outside those two windows (decidable predicate safe_point) leaves a state from which every later call returns the outcome over the complete table (a table-free specification, walk of the resolution chain); any change made while _compiled is set rebuilds everything from any state; a first build failing in argument analysis raises the configuration error on every call and works after removal. Tie to /repo on every run: a sys.settrace injector raises KeyboardInterrupt / RuntimeError at every executed library line of first build, rebuild and cache-miss resolution, plus natural faults (bare call_next, unreadable source, conflicting argument names at every position; user class_check / __type_order__ hooks raising on their n-th call); after each failure every key is probed; the probe outcomes must equal the model's at the step boundary the line maps to (source-text anchored markers), the oracle (config error or fresh-function outcome; equal to fresh after removal) is evaluated on the implementation alone.",
+    text="Coq theorems about an executable step-machine model of the lazy build (Model/BuildM.v: first_entry, Ovld.compile, _update/_register/unregister, register_signature, MultiTypeMap.register/resolve/__missing__ as sequences of atomic steps; a failure after any prefix of steps keeps the writes made so far; resolution order abstracted as a parameter). The full statement (every failure point, every later probe: configuration error or complete-table outcome; works once the offending method is removed) is REFUTED by vm_compute witnesses: KF-19 (failure in the fill loop after the entry-point swap, and the table replaced by an empty one at the start of every rebuild; removing the offending method does not repair a failed first build), KF-45 (interrupt between recording a method and rebuilding). KF-20 (interrupt between the first-rank write and the continuation writes of resolve) is REPAIRED in /repo (7cfed94: writes applied bottom-up, first-rank entry last); the model follows and the whole write loop is inside the proved domain. PROVED for all definition lists, histories of completed calls, failure points and probe sequences: a failure at any step boundary of a call outside KF-19's window (decidable predicate safe_point = not in_fill_window) leaves a state from which every later call returns the outcome over the complete table (a table-free specification, walk of the resolution chain); any change made while _compiled is set rebuilds everything from any state; a first build failing in argument analysis raises the configuration error on every call and works after removal. Tie to /repo on every run: a sys.settrace injector raises KeyboardInterrupt / RuntimeError at every executed library line of first build, rebuild and cache-miss resolution, plus natural faults (bare call_next, unreadable source, conflicting argument names at every position; user class_check / __type_order__ hooks raising on their n-th call); after each failure every key is probed; the probe outcomes must equal the model's at the step boundary the line maps to (source-text anchored markers), the oracle (config error or fresh-function outcome; equal to fresh after removal) is evaluated on the implementation alone.",
     note="Partial: the model abstracts a source line to the step boundary before/after it (an in-flight visible statement admits both), dependent (value-level) ranks and optional parameters are outside the model (a NameError window between the code swap and the globals update exists for signatures with optional parameters and is not modelled). Trusted: Coq kernel, extraction, OCaml driver, the hand-written model (validated by the correspondence), CPython's tracing. No axioms.",
     technique="Coq proof (single-thread invariant over a small-step machine, preserved by every step; refutations by vm_compute) + fault injection at every executed line (sys.settrace) compared with the extracted model", design="6 C18")
 
 THEOREMS = ["C18_safe_after_failure_refuted", "C18_works_after_removal_refuted", "C18_refuted_fill", "C18_refuted_fill_removal",
-            "C18_refuted_rebuild", "C18_refuted_resolve", "C18_refuted_stale", "C18_partial", "C18_partial_removal_rebuild",
+            "C18_refuted_rebuild", "C18_resolve_window_safe", "C18_refuted_stale", "C18_partial", "C18_partial_removal_rebuild",
             "C18_partial_bad_analysis", "C18_hypotheses_inhabited", "C18_meth_inhabited", "C18_domain_complement"]
 ASSUMPTIONS = ["resolution order is a parameter of the model (ChainOk: candidates are registered handlers, each appears once); the rank data sent to the model is validated per scenario against MultiTypeMap.mro on every prefix of the definitions",
                "single-argument methods without optional parameters and without value-dependent types; a line is abstracted to the step boundary before it (or after it while a visible statement is in flight)",
@@ -185,10 +185,7 @@ def classify(case, run):
             return "KF-19"
     if trig != "call" and "DEFS" in started and "NEWMAP" not in started:
         return "KF-45"
-    stack = run.get("stack") or []
-    if "resolve" in stack and "WRITE" in started:
-        return "KF-20"
-    return None
+    return None   # KF-20 (resolve's write loop) is repaired: a failure there is a violation again
 
 
 def check_failure(ctx, case, mv, run, label, stats):
@@ -372,8 +369,11 @@ def replay(ctx, payload):
 
 
 def replay_finding(ctx, e):
+    """True = the witness still violates the property on the real code (for an open finding: with the recorded outcomes)"""
     wit = e["witness"]
     case = wit["case"]
     run = run_failure(case, inject=wit.get("inject"))
-    ok = run["after"] == wit["expect_after"] and bool(oracle(case, run))
-    return ok
+    failing = bool(oracle(case, run))
+    if e.get("status") == "open":
+        return failing and run["after"] == wit["expect_after"]
+    return failing
